@@ -341,6 +341,8 @@ _DELM = {'t': 'DeleteModel', 'model': 'Beta'}
 _DELF = {'t': 'DeleteField', 'model': 'Beta', 'field': 'd'}
 _CHG = {'t': 'ChangeField', 'model': 'Beta', 'field': 'c', 'ftype': None, 'initial': None, 'attrs': [['null', 'true']]}
 
+_ADDFK = {'t': 'AddField', 'model': 'Beta', 'field': 'owner', 'ftype': 'ForeignKey', 'initial': None,
+          'attrs': [['null', 'true'], ['related_model', '"vapp.Alpha"']]}
 _RNF = {'t': 'RenameField', 'model': 'Alpha', 'old': 'b', 'new': 'bb', 'db_column': None, 'db_table': None}
 _RNM = {'t': 'RenameModel', 'old': 'Beta', 'new': 'Gamma', 'db_table': 'vapp_beta'}
 
@@ -402,6 +404,12 @@ FAMILY = [
                    {'t': 'ChangeMeta', 'model': 'Alpha', 'prop': 'db_table_comment', 'py_value': 'shelf of things'}]},
     {'spec0': _two(), 'valid': [_ADD], 'perturbation': 'family:unsupported Meta property next to a dropped AddField',
      'evolution': [{'t': 'ChangeMeta', 'model': 'Alpha', 'prop': 'db_table_comment', 'py_value': 'shelf of things'}]},
+    # a relation added with another relation class than the models have (OneToOneField is a subclass of ForeignKey,
+    # but its column is UNIQUE), and the other way round
+    {'spec0': _two(), 'valid': [_ADDFK], 'perturbation': 'family:relation class OneToOneField for ForeignKey',
+     'evolution': [dict(_ADDFK, ftype='OneToOneField')]},
+    {'spec0': _two(), 'valid': [dict(_ADDFK, ftype='OneToOneField')],
+     'perturbation': 'family:relation class ForeignKey for OneToOneField', 'evolution': [_ADDFK]},
     # a rename stated twice (the second one names a field / model that is gone), next to an ordinary change
     {'spec0': _two(), 'valid': [_RNF, _ADD], 'perturbation': 'family:duplicate RenameField', 'evolution': [_RNF, _RNF, _ADD]},
     {'spec0': _two(), 'valid': [_RNM, _ADD], 'perturbation': 'family:duplicate RenameModel', 'evolution': [_RNM, _RNM, _ADD]},
